@@ -82,6 +82,14 @@ func VerifHarness_C12_SampleOp() {
 	vsymAssert(err == nil, "every arithmetic/comparison operator builds")
 	ls := &verifSeries{key: 1, name: "L"}
 	res, keep := f(Sample{Data: l, Set: ls}, Sample{Data: r, Set: &verifSeries{key: 1, name: "R"}})
+	if _, isCmp, holds := verifRefBinOp(op, l, r); isCmp && !holds && !keep {
+		// one series per input series: a comparison that does not hold yields 0
+		if expr.Modifier.ReturnBool {
+			vsymFinding("F29", true, "with the `bool` modifier a comparison drops the series for which it does not hold instead of yielding 0 (without `bool` every series is kept with 0/1): the flag that asks for a 0/1 answer switches filtering on")
+			return
+		}
+		vsymAssert(false, "a comparison yields one series per input series (0 where it does not hold)")
+	}
 	verifCheckBinOpResult(op, l, r, res.Data, keep)
 	if keep {
 		vsymAssert(res.Set == AggregatedLabels(ls), "the result carries the left operand's labels")
